@@ -312,8 +312,17 @@ def ids_round_trip(ctx):
     ctx.check(want_it in terms_ and want_plain in terms_, 'read_raw_file#returns', 'iter: (_process_ids(id, len(cost)), params, cost); plain: (params, cost)',
               'read_raw_file returns %s' % [T.show(x)[:150] for x in terms_ if x not in (want_it, want_plain)], rr, rr.node)
     w = ctx.func(MU + ':write_raw_file')
-    src = ''.join(unparse(w.node).split())
-    ctx.check('ifnotlen(ids):ids=None' in src and 'elifids.count(ids[0])==len(ids):ids=ids[0]' in src and 'ifidsisnotNone:' in src, 'write_raw_file#ids',
+    # (decided on canonical terms of the tests, so swapped operands / `len(ids) == 0` / `not ids is None` are the same tests)
+    def _t(src_):
+        return T.term(ast.parse(src_, mode='eval').body)
+    ifs = [n_ for n_ in ast.walk(w.node) if isinstance(n_, ast.If)]
+
+    def _sets(body, val):
+        return any(isinstance(s_, ast.Assign) and len(s_.targets) == 1 and unparse(s_.targets[0]) == 'ids' and T.term(s_.value) == _t(val) for s_ in body)
+    none_ = any(T.term(i_.test) in (_t('not len(ids)'), _t('len(ids) == 0')) and _sets(i_.body, 'None') for i_ in ifs)
+    uniform = any(T.term(i_.test) == _t('ids.count(ids[0]) == len(ids)') and _sets(i_.body, 'ids[0]') for i_ in ifs)
+    written = any(T.term(i_.test) in (_t('ids is not None'), _t('not ids is None'), _t('not (ids is None)')) for i_ in ifs)
+    ctx.check(none_ and uniform and written, 'write_raw_file#ids',
               'no ids -> none written; uniform ids -> the single value (tested with `is not None`, so id 0 is written)', 'write_raw_file id handling changed', w, w.node)
 
 
